@@ -46,6 +46,7 @@ import (
 	"github.com/smallstep/certificates/authority"
 	"github.com/smallstep/certificates/authority/config"
 	"github.com/smallstep/certificates/authority/provisioner"
+	"github.com/smallstep/certificates/ca"
 	"github.com/smallstep/certificates/errs"
 	"go.step.sm/crypto/x509util"
 	"verif/harness/cmd/c05/gen"
@@ -71,6 +72,19 @@ type Case struct {
 	// retired root; "hdr": the retired root in a CERTIFICATE block with PEM headers (skipped by the
 	// bundle reader), then the current root.
 	Bundle string `json:",omitempty"`
+	// SanExt: the template data carries, besides the requested names, a SAN of a type the standard
+	// library does not know (a permanentIdentifier, as ACME device-attest orders and hardware
+	// templates have): x509util then builds the subjectAltName extension itself. The CA's answer is
+	// the one Authority.Sign gives; the names in the signed certificate are the same.
+	SanExt bool `json:",omitempty"`
+	// Cfg "files": the authority is not assembled from options but from a configuration as the
+	// step-ca binary reads it: ca.json fields root (one or two files, "files2": a retired root
+	// first), crt (PEM bundle of all intermediates, issuing CA first) and key on disk, started
+	// with authority.New. It is started twice: first on the previous, unconstrained intermediate
+	// of the same root, then — after the crt/key files were replaced, as an operator rotating the
+	// intermediate does before a restart / SIGHUP reload — on the chain of the case. The CA's own
+	// server certificate is then obtained the way the binary does: ca.New(config) -> Init.
+	Cfg string `json:",omitempty"`
 }
 
 var (
@@ -93,6 +107,9 @@ func (k *Case) rootOption(b *built) authority.Option {
 		return authority.WithX509RootBundle(append(append(cur, crlPEM...), old...))
 	case "hdr":
 		return authority.WithX509RootBundle(append(pemBlock("CERTIFICATE", retired.Raw, map[string]string{"Comment": "retired"}), cur...))
+	case "bad":
+		// a CERTIFICATE block that does not parse after the current root: the bundle is refused
+		return authority.WithX509RootBundle(append(cur, pemBlock("CERTIFICATE", []byte{0x30, 0x03, 0x02, 0x01, 0x01}, nil)...))
 	}
 	return authority.WithX509RootCerts(b.root)
 }
@@ -101,6 +118,9 @@ func (k *Case) rootFields(b *built) string {
 	signs := b.ints[len(b.ints)-1].CheckSignatureFrom(b.root) == nil
 	cur := certField(b.root) + "~" + c.B(signs)
 	old := certField(retired) + "~" + c.B(b.ints[len(b.ints)-1].CheckSignatureFrom(retired) == nil)
+	if k.Cfg == "files2" {
+		return "roots=" + old + "|" + cur
+	}
 	switch k.Bundle {
 	case "crl":
 		return "roots=" + old + "|" + cur + " bundle=r0,x,r1"
@@ -108,6 +128,8 @@ func (k *Case) rootFields(b *built) string {
 		return "roots=" + cur + "|" + old + " bundle=r0,x,r1"
 	case "hdr":
 		return "roots=" + cur + " bundle=x,r0"
+	case "bad":
+		return "roots=" + cur + " bundle=r0,b"
 	}
 	return "roots=" + cur
 }
@@ -149,6 +171,52 @@ func spellTLS(r *c.Rng, n *gen.Names) []string {
 	return out
 }
 
+func sameNameSet(a, b *x509.Certificate) bool {
+	set := func(crt *x509.Certificate) map[string]bool {
+		m := map[string]bool{}
+		for _, d := range crt.DNSNames {
+			m["dns:"+strings.ToLower(d)] = true // x509util lower-cases the dNSNames it encodes
+		}
+		for _, ip := range crt.IPAddresses {
+			m["ip:"+ip.String()] = true
+		}
+		for _, e := range crt.EmailAddresses {
+			m["email:"+e] = true
+		}
+		for _, u := range crt.URIs {
+			m["uri:"+u.String()] = true
+		}
+		return m
+	}
+	x, y := set(a), set(b)
+	if len(x) != len(y) {
+		return false
+	}
+	for k := range x {
+		if !y[k] {
+			return false
+		}
+	}
+	return true
+}
+
+func sameNameFields(a, b *x509.Certificate) bool {
+	if !sameNames(a, b) {
+		return false
+	}
+	for i := range a.EmailAddresses {
+		if a.EmailAddresses[i] != b.EmailAddresses[i] {
+			return false
+		}
+	}
+	for i := range a.URIs {
+		if a.URIs[i].String() != b.URIs[i].String() {
+			return false
+		}
+	}
+	return true
+}
+
 func sameNames(a, b *x509.Certificate) bool {
 	if len(a.DNSNames) != len(b.DNSNames) || len(a.IPAddresses) != len(b.IPAddresses) ||
 		len(a.EmailAddresses) != len(b.EmailAddresses) || len(a.URIs) != len(b.URIs) {
@@ -180,6 +248,85 @@ type built struct {
 	root  *x509.Certificate
 	auth  *authority.Authority
 	issKy crypto.Signer
+	cfg   *config.Config // Cfg "files": the configuration the authority was started from
+	dir   string
+}
+
+func (b *built) close() {
+	if b.dir != "" {
+		os.RemoveAll(b.dir)
+	}
+}
+
+func writePEMs(path string, certs ...*x509.Certificate) error {
+	var out []byte
+	for _, crt := range certs {
+		out = append(out, pemBlock("CERTIFICATE", crt.Raw, nil)...)
+	}
+	return os.WriteFile(path, out, 0o600)
+}
+
+func writeKey(path string, key *ecdsa.PrivateKey) error {
+	der, err := x509.MarshalECPrivateKey(key)
+	if err != nil {
+		return err
+	}
+	return os.WriteFile(path, pemBlock("EC PRIVATE KEY", der, nil), 0o600)
+}
+
+// fromFiles starts the authority from configuration files, after a first start on the previous
+// intermediate of the same root.
+func (k *Case) fromFiles(b *built, rootKey *ecdsa.PrivateKey) (*authority.Authority, error) {
+	dir, err := os.MkdirTemp("", "verif-c05-cfg-")
+	if err != nil {
+		return nil, err
+	}
+	b.dir = dir
+	rootFile, intFile, keyFile := dir+"/root.crt", dir+"/int.crt", dir+"/int.key"
+	roots := []string{rootFile}
+	if err := writePEMs(rootFile, b.root); err != nil {
+		return nil, err
+	}
+	if k.Cfg == "files2" {
+		if err := writePEMs(dir+"/retired.crt", retired); err != nil {
+			return nil, err
+		}
+		roots = []string{dir + "/retired.crt", rootFile}
+	}
+	cfg := &config.Config{Root: roots, IntermediateCert: intFile, IntermediateKey: keyFile,
+		Address: "127.0.0.1:0", DNSNames: []string{"ca.verif.test"},
+		AuthorityConfig: &config.AuthConfig{}}
+	// first generation: an unconstrained intermediate
+	ot := &x509.Certificate{SerialNumber: big.NewInt(55), Subject: pkix.Name{CommonName: "C05 previous intermediate"},
+		NotBefore: t0, NotAfter: t1, IsCA: true, BasicConstraintsValid: true,
+		KeyUsage: x509.KeyUsageCertSign | x509.KeyUsageCRLSign, SubjectKeyId: []byte{0xC0, 0x05, 0x55, 0x01}}
+	od, err := x509.CreateCertificate(rand.Reader, ot, b.root, leafKey.Public(), rootKey)
+	if err != nil {
+		return nil, err
+	}
+	oldInt, _ := x509.ParseCertificate(od)
+	if err := writePEMs(intFile, oldInt); err != nil {
+		return nil, err
+	}
+	if err := writeKey(keyFile, leafKey); err != nil {
+		return nil, err
+	}
+	a0, err := authority.New(cfg, authority.WithQuietInit())
+	if err != nil {
+		return nil, fmt.Errorf("first start: %w", err)
+	}
+	a0.Shutdown()
+	// rotation: the files now hold the chain of the case; restart
+	if err := writePEMs(intFile, b.ints...); err != nil {
+		return nil, err
+	}
+	if err := writeKey(keyFile, keys[0]); err != nil {
+		return nil, err
+	}
+	cfg2 := *cfg
+	cfg2.AuthorityConfig = &config.AuthConfig{}
+	b.cfg = &cfg2
+	return authority.New(&cfg2, authority.WithQuietInit(), authority.WithX509Enforcers(addDNS{&curEnf}))
 }
 
 func caTemplate(i int, l *gen.Level) *x509.Certificate {
@@ -228,10 +375,20 @@ func build(k *Case) (*built, bool) {
 		}
 	}
 	b := &built{ints: certs[:n-1], root: certs[n-1], issKy: keys[0]}
-	a, err := authority.NewEmbedded(k.rootOption(b), authority.WithX509SignerChain(b.ints, b.issKy),
-		authority.WithX509Enforcers(addDNS{&curEnf}))
+	var a *authority.Authority
+	var err error
+	if k.Cfg != "" {
+		a, err = k.fromFiles(b, keys[n-1])
+	} else {
+		a, err = authority.NewEmbedded(k.rootOption(b), authority.WithX509SignerChain(b.ints, b.issKy),
+			authority.WithX509Enforcers(addDNS{&curEnf}))
+	}
+	if err != nil && k.Bundle == "bad" {
+		return b, true // no authority: reported as such by emit
+	}
 	if err != nil {
-		fmt.Fprintln(os.Stderr, "NewEmbedded:", err)
+		fmt.Fprintln(os.Stderr, "authority:", err)
+		b.close()
 		return nil, false
 	}
 	b.auth = a
@@ -255,7 +412,11 @@ func (k *Case) render(b *built) (string, bool) {
 	js, _ := json.Marshal(k)
 	// external input of the root selection in authority.init: does the root's key verify the last
 	// intermediate's signature (computed with the same crypto/x509 call)
-	return fmt.Sprintf("st=chain ints=%s %s %s case=x%s", strings.Join(ints, "|"), k.rootFields(b), names, hex.EncodeToString(js)), true
+	san := ""
+	if k.SanExt {
+		san = " san=ext"
+	}
+	return fmt.Sprintf("st=chain ints=%s %s %s%s case=x%s", strings.Join(ints, "|"), k.rootFields(b), names, san, hex.EncodeToString(js)), true
 }
 
 func verify(leaf *x509.Certificate, chain []*x509.Certificate, root *x509.Certificate) string {
@@ -366,6 +527,9 @@ func (k *Case) run(b *built) (out string, ok bool) {
 	}
 	vfy := verify(leaf, b.ints, b.root)
 
+	if k.SanExt {
+		goto sign
+	}
 	// renew and rekey of a certificate with these names (the directly signed leaf stands for a
 	// certificate issued before the chain's constraints changed): same answer as the engine,
 	// and what comes back verifies like the leaf
@@ -398,7 +562,36 @@ func (k *Case) run(b *built) (out string, ok bool) {
 	// IPv4 / IPv6 literals, IP literals in the bracketed host form "[::1]"). GetTLSCertificate
 	// must put exactly these names into the certificate, must refuse when the engine refuses
 	// them, and what it issues must verify like the directly signed leaf.
-	if len(k.TLS) > 0 {
+	if len(k.TLS) > 0 && b.cfg != nil {
+		// as the binary starts: ca.New(config) -> Init -> getTLSConfig -> GetTLSCertificate
+		cfg := *b.cfg
+		cfg.AuthorityConfig = &config.AuthConfig{}
+		cfg.DNSNames = k.TLS
+		started := func() (ok bool) {
+			defer func() {
+				if r := recover(); r != nil {
+					ok = false
+				}
+			}()
+			srv, err := ca.New(&cfg, ca.WithQuiet(true))
+			if err != nil {
+				return false
+			}
+			func() {
+				defer func() { recover() }()
+				srv.Stop()
+			}()
+			return true
+		}()
+		if started {
+			stats["castart:started"]++
+			if eng != "allow" {
+				return "inconsistent:ca-started eng=" + eng, true
+			}
+		} else {
+			stats["castart:refused"]++
+		}
+	} else if len(k.TLS) > 0 {
 		a2, err := authority.NewEmbedded(authority.WithConfig(&config.Config{DNSNames: k.TLS}),
 			k.rootOption(b), authority.WithX509SignerChain(b.ints, b.issKy))
 		if err == nil {
@@ -433,6 +626,7 @@ func (k *Case) run(b *built) (out string, ok bool) {
 		}
 	}
 
+sign:
 	// through the CA: CSR -> Authority.Sign
 	reqDNS, enfDNS := k.Names.DNS, []string(nil)
 	if k.EnfDNS > 0 && k.EnfDNS <= len(reqDNS) {
@@ -453,7 +647,11 @@ func (k *Case) run(b *built) (out string, ok bool) {
 	// the template option every stock provisioner adds: DefaultLeafTemplate over the CSR's SANs
 	data := x509util.NewTemplateData()
 	data.SetCommonName("C05 leaf")
-	data.SetSubjectAlternativeNames(sanList(csr)...)
+	sl := sanList(csr)
+	if k.SanExt {
+		sl = append(sl, x509util.SubjectAlternativeName{Type: x509util.PermanentIdentifierType, Value: "c05-device-1"})
+	}
+	data.SetSubjectAlternativeNames(sl...)
 	signOpts := []provisioner.SignOption{tplOption{data},
 		provisioner.CertificateModifierFunc(func(crt *x509.Certificate, _ provisioner.SignOptions) error {
 			crt.NotBefore, crt.NotAfter = t0, t1
@@ -469,6 +667,35 @@ func (k *Case) run(b *built) (out string, ok bool) {
 	}
 	chain, err := b.auth.SignWithContext(context.Background(), csr, provisioner.SignOptions{}, signOpts...)
 	curEnf = nil
+	if k.SanExt {
+		// no cross-check with the engine on the directly signed leaf here: what is reported is what
+		// the CA did with the template that carries the names in an extension
+		if err != nil {
+			cl := statusClass(err)
+			if cl != "deny" {
+				// x509util could not build the extension for these names (or an rfc822Name does
+				// not parse): the template machinery failed, nothing about constraints is learnt
+				stats["sign-sanext:template-error"]++
+				return "", false
+			}
+			stats["sign-sanext:refused"]++
+			return "eng=deny vfy=" + vfy, true
+		}
+		stats["sign-sanext:issued"]++
+		if !sameNameSet(chain[0], leaf) {
+			return "inconsistent:sanext-names", true
+		}
+		if chain[0].CheckSignatureFrom(b.ints[0]) != nil {
+			return "inconsistent:signature", true
+		}
+		// x509util writes the SANs in the order of the template (dns, ip, e-mail, uri), Go in its
+		// own (dns, e-mail, ip, uri): which name a verifier trips over first may differ, whether
+		// it accepts may not
+		if sv := verify(chain[0], chain[1:], b.root); (sv == "ok") != (vfy == "ok") {
+			return "inconsistent:issued-vfy=" + sv + " direct-vfy=" + vfy, true
+		}
+		return "eng=allow vfy=" + vfy, true
+	}
 	if err != nil {
 		stats["sign:refused"]++
 		if s := statusClass(err); s != eng {
@@ -516,11 +743,21 @@ func corner() []*Case {
 		{Levels: []gen.Level{{PURI: ex("example.com")}, {}}, Names: gen.Names{URIs: ex("https://.example.com/p")}},
 		{Levels: []gen.Level{{PDNS: ex("example.com")}, {}}, Names: gen.Names{DNS: ex(".www.example.com")}},
 		{Levels: []gen.Level{{PEm: ex("example.com")}, {}}, Names: gen.Names{Emails: ex("a@.example.com")}},
+		// the authority started from configuration files, after a rotation of the intermediate
+		{Levels: []gen.Level{{PDNS: ex("example.org")}, {}}, Cfg: "files", Names: gen.Names{DNS: ex("web.example.com")}, TLS: ex("web.example.com")},
+		{Levels: []gen.Level{{PDNS: ex("example.org")}, {}}, Cfg: "files", Names: gen.Names{DNS: ex("ca.example.org")}, TLS: ex("ca.example.org")},
+		{Levels: []gen.Level{{}, {PDNS: ex("example.org")}, {XDNS: ex("bad.example.org")}}, Cfg: "files2", Names: gen.Names{DNS: ex("x.bad.example.org")}},
+		{Levels: []gen.Level{{}, {PIP: []gen.Net{gen.NetsOK[0]}}}, Cfg: "files2", Names: gen.Names{IPs: ex("00000000000000000000000000000001")}, TLS: ex("[::1]")},
+		// the names reach the template in a subjectAltName extension built by x509util
+		{Levels: []gen.Level{{PDNS: ex("example.org")}, {}}, SanExt: true, Names: gen.Names{DNS: ex("web.example.com")}},
+		{Levels: []gen.Level{{PDNS: ex("example.org")}, {}}, SanExt: true, Names: gen.Names{DNS: ex("web.example.org")}},
+		{Levels: []gen.Level{{}, {XIP: []gen.Net{gen.NetsOK[0]}}}, SanExt: true, Names: gen.Names{IPs: ex("0a010203"), URIs: ex("https://example.com/p")}},
 		// roots from a PEM bundle: retired root and a CRL in front of / behind the current root
 		{Levels: []gen.Level{{}, {XDNS: ex("bad.example.com")}}, Bundle: "crl", Names: gen.Names{DNS: ex("x.bad.example.com")}},
 		{Levels: []gen.Level{{}, {XDNS: ex("bad.example.com")}}, Bundle: "tail", Names: gen.Names{DNS: ex("x.bad.example.com")}},
 		{Levels: []gen.Level{{}, {PDNS: ex("example.org")}}, Bundle: "hdr", Names: gen.Names{DNS: ex("web.example.com")}},
 		{Levels: []gen.Level{{}, {PDNS: ex("example.org")}}, Bundle: "crl", Names: gen.Names{DNS: ex("web.example.org")}},
+		{Levels: []gen.Level{{}, {PDNS: ex("example.org")}}, Bundle: "bad", Names: gen.Names{DNS: ex("web.example.org")}},
 		// a certificate enforcer adds a name after the request was validated by the provisioner
 		{Levels: []gen.Level{{PDNS: ex("example.org")}, {}}, Names: gen.Names{DNS: ex("web.example.org", "web.svc.cluster.local")}, EnfDNS: 1, EnfVia: "authority"},
 		{Levels: []gen.Level{{PDNS: ex("example.org")}, {}}, Names: gen.Names{DNS: ex("web.example.org", "web.svc.cluster.local")}, EnfDNS: 1, EnfVia: "option"},
@@ -580,6 +817,10 @@ func main() {
 			stats["skip:names-not-expressible"]++
 			return
 		}
+		if b.auth == nil {
+			o.Case(line, "no-authority")
+			return
+		}
 		if impl, ok := k.run(b); ok {
 			o.Case(line, impl)
 		}
@@ -610,6 +851,7 @@ func main() {
 			if json.Unmarshal(js, &k) == nil && len(k.Levels) >= 2 && len(k.Levels) <= 4 {
 				if b, ok := build(&k); ok {
 					emit(&k, b)
+					b.close()
 				}
 			}
 		}
@@ -618,6 +860,7 @@ func main() {
 	for _, k := range corner() {
 		if b, ok := build(k); ok {
 			emit(k, b)
+			b.close()
 		} else {
 			stats["skip:chain-not-creatable"]++
 		}
@@ -641,6 +884,8 @@ func main() {
 		}
 		if rr.Chance(1, 3) {
 			k.Bundle = c.Pick(rr, []string{"crl", "tail", "hdr"})
+		} else if rr.Chance(1, 4) {
+			k.Cfg = c.Pick(rr, []string{"files", "files2"})
 		}
 		b, ok := build(k)
 		if !ok {
@@ -648,7 +893,7 @@ func main() {
 			continue
 		}
 		for j := 0; j < *per; j++ {
-			kk := &Case{Levels: k.Levels, KeyID: k.KeyID, Bundle: k.Bundle, Names: gen.GenNames(rr.Fork(), true, k.Levels)}
+			kk := &Case{Levels: k.Levels, KeyID: k.KeyID, Bundle: k.Bundle, Cfg: k.Cfg, Names: gen.GenNames(rr.Fork(), true, k.Levels)}
 			if re := rr.Fork(); re.Chance(1, 4) {
 				// names a certificate enforcer adds on top of the requested ones
 				extra := gen.GenNames(re, true, k.Levels).DNS
@@ -660,8 +905,12 @@ func main() {
 				kk.EnfVia = c.Pick(re, []string{"authority", "option"})
 			}
 			kk.TLS = spellTLS(rr.Fork(), &kk.Names)
+			if kk.EnfDNS == 0 && rr.Fork().Chance(1, 8) {
+				kk.SanExt, kk.TLS = true, nil
+			}
 			emit(kk, b)
 		}
+		b.close()
 	}
 	// input distribution, for the evidence file (stderr/stdout text is kept as a harness note)
 	keysS := make([]string, 0, len(stats))
